@@ -16,7 +16,17 @@ use std::time::{Duration, Instant};
 const KNOWN_WORDS: &[&str] = &["isready", "ucinewgame", "position", "go", "setoption", "quit", "uci"];
 
 pub fn garbage_line(rng: &mut Rng) -> String {
-    let line = match rng.below(10) {
+    let line = match rng.below(11) {
+        10 => {
+            // bytes that are not valid UTF-8 (marked, sent raw by the script runner)
+            let n = 1 + rng.below(12) as usize;
+            let mut hex = String::from("RAWHEX:");
+            for i in 0..n {
+                let b: u8 = if i == 0 { b'z' } else { *rng.pick(&[0xffu8, 0xfe, 0xc0, 0x80, 0xed, 0xa0, b'a', b' ', 0xf5]) };
+                hex.push_str(&format!("{:02x}", b));
+            }
+            return hex;
+        }
         0 => String::new(),
         1 => " ".repeat(1 + rng.below(6) as usize),
         2 => "\t \t".to_string(),
@@ -142,7 +152,13 @@ fn run_script(bin: &PathBuf, script: &Script, with_garbage: bool, odd_ws: Option
                 return None;
             }
         } else {
-            s.eng.send(&text);
+            if let Some(hex) = text.strip_prefix("RAWHEX:") {
+                let mut bytes: Vec<u8> = (0..hex.len() / 2).filter_map(|i| u8::from_str_radix(&hex[2 * i..2 * i + 2], 16).ok()).collect();
+                bytes.push(b'\n');
+                s.eng.send_raw(&bytes);
+            } else {
+                s.eng.send(&text);
+            }
             since_ready += 1;
         }
         // (a) isready is always answered, probed right after garbage
@@ -278,9 +294,9 @@ fn check_eof(bin: &PathBuf, rng: &mut Rng, roots: &[History], acc: &mut Acc, sid
 
 pub fn run(tier: Tier, seed: u64) -> i32 {
     let mut run = Run::new("C17", tier, seed, "exploration");
-    run.rule = "evaluation = one observation on a session of the real binary: (a) an isready probe after unknown lines, (b) the bestmove sequence of a script of well-formed commands (position + zero-slice go chains with unknown go tokens, ucinewgame, isready) with unknown/garbage lines inserted at random points compared with the same script without them, and with surplus blanks/tabs/trailing CR in the well-formed commands, (c) no 'panicked' on stderr and no exit, (d) quit ends the process within 2 s (solo-confirmed), (e) closing stdin before uci / after the handshake / mid-session / right after a timed go ends the process within slice + 2 s and it does not burn CPU meanwhile (process CPU time vs wall time over 300 ms). Unknown lines: empty, blanks/tabs, unknown words, random printable ASCII, Unicode, BOM, comment-like, 3000-character lines; never starting with a command word. Non-trivial = every script / EOF session; distinct by seed index".into();
+    run.rule = "evaluation = one observation on a session of the real binary: (a) an isready probe after unknown lines, (b) the bestmove sequence of a script of well-formed commands (position + zero-slice go chains with unknown go tokens, ucinewgame, isready) with unknown/garbage lines inserted at random points compared with the same script without them, and with surplus blanks/tabs/trailing CR in the well-formed commands, (c) no 'panicked' on stderr and no exit, (d) quit ends the process within 2 s (solo-confirmed), (e) closing stdin before uci / after the handshake / mid-session / right after a timed go ends the process within slice + 2 s and it does not burn CPU meanwhile (process CPU time vs wall time over 300 ms). Unknown lines: empty, blanks/tabs, unknown words, random printable ASCII, Unicode, BOM, comment-like, 3000-character lines, bytes that are not valid UTF-8; never starting with a command word. Non-trivial = every script / EOF session; distinct by seed index".into();
     run.assumptions = vec![
-        "input is valid UTF-8 text; raw non-UTF-8 bytes are outside the kinds of line the statement lists".into(),
+        "garbage lines include byte sequences that are not valid UTF-8 (a line is whatever ends with a newline)".into(),
         "lines that begin with a known command word but are malformed are not 'unknown input' and are excluded".into(),
         "go lines carry no usable clock so the answers are deterministic (zero allowance)".into(),
     ];
